@@ -387,6 +387,8 @@ var primaryOf = map[string]string{
 	"selector_application_only": "managed-selector-incomplete", "selector_bad_label": "managed-selector-label-invalid",
 	"selector_endpoint_only_with_target": "managed-selector-incomplete", "selector_bad_endpoint_label": "managed-selector-label-invalid",
 	"target_missing": "target-missing", "target_of_other_route": "target-not-allowed", "target_not_allowed": "target-not-allowed",
+	"target_case_variant_pull_upper": "target-not-allowed", "target_case_variant_pull_title": "target-not-allowed",
+	"target_case_variant_url_host": "target-not-allowed", "target_case_variant_url_path": "target-not-allowed",
 	"publish_off": "route-publish-off", "publish_direct_off": "route-publish-direct-off",
 	"hint_route": "selector-hint-on-scoped-path", "hint_route_other": "selector-hint-on-scoped-path", "hint_route_relative": "route-relative",
 	"hint_selector": "selector-hint-on-scoped-path", "hint_selector_other": "selector-hint-on-scoped-path",
@@ -480,6 +482,27 @@ func kindsFor(ps pathSpec) []kind {
 		}
 	}
 	add("target_not_allowed", true, false, 0, func(it *itemSpec, _ []itemSpec) { it.Target = "zzz" })
+	// targets are exact keys (pull dequeues target "pull", the dispatcher looks deliveries up by URL): a case
+	// variant of an allowed target is not one of the route's targets
+	if ps.Global || ps.Ep != "ep2" {
+		add("target_case_variant_pull_upper", false, false, 0, func(it *itemSpec, _ []itemSpec) { it.Target = "PULL" })
+		add("target_case_variant_pull_title", false, false, 0, func(it *itemSpec, _ []itemSpec) { it.Target = "Pull" })
+	}
+	if ps.Global || ps.Ep == "ep2" {
+		route := func(it *itemSpec) {
+			if ps.Global {
+				it.Route = rD2
+			}
+		}
+		add("target_case_variant_url_host", false, false, 0, func(it *itemSpec, _ []itemSpec) {
+			route(it)
+			it.Target = "HTTPS://T2.EXAMPLE.ORG/hook"
+		})
+		add("target_case_variant_url_path", false, false, 0, func(it *itemSpec, _ []itemSpec) {
+			route(it)
+			it.Target = "https://t1.example.org/HOOK"
+		})
+	}
 	// payload / headers / timestamps
 	add("bad_base64", true, true, 0, func(it *itemSpec, _ []itemSpec) { it.PayloadB64 = "!!!!" })
 	add("payload_too_large", true, false, 0, func(it *itemSpec, _ []itemSpec) { it.PayloadB64 = b64n(maxBody + 1) })
